@@ -324,3 +324,348 @@ Proof.
 Qed.
 
 End PathColons.
+
+(* ---------- the input only shrinks ---------- *)
+Lemma inp_next_count58 l c r : inp_next l = Some (c, r) -> (count58 (c :: r) <= count58 l)%nat.
+Proof.
+  unfold inp_next. pose proof (count58_drop_while is_tnl l) as H0.
+  destruct (drop_while is_tnl l) as [|d r']; [discriminate|]. intros H; inversion H; subst. exact H0.
+Qed.
+
+Lemma inp_next_rest l c r : inp_next l = Some (c, r) -> (count58 r <= count58 l)%nat.
+Proof. intros H. apply inp_next_count58 in H. cbn [count58] in H. lia. Qed.
+
+Lemma inp_split_first_count58 l mc rem : inp_split_first l = (mc, rem) -> (count58 rem <= count58 l)%nat.
+Proof.
+  unfold inp_split_first. destruct (inp_next l) as [[c r]|] eqn:E; intros H; inversion H; subst.
+  - eapply inp_next_rest; eassumption.
+  - cbn [count58]. lia.
+Qed.
+
+Lemma inp_split_prefix_char_count58 c l r : inp_split_prefix_char c l = Some r -> (count58 r <= count58 l)%nat.
+Proof.
+  unfold inp_split_prefix_char. destruct (inp_next l) as [[d r']|] eqn:E; [|discriminate].
+  destruct (d =? c); [|discriminate]. intros H; inversion H; subst. eapply inp_next_rest; eassumption.
+Qed.
+
+Lemma inp_split_prefix_str_count58 p : forall l r, inp_split_prefix_str p l = Some r -> (count58 r <= count58 l)%nat.
+Proof.
+  induction p as [|c p IH]; intros l r H; cbn [inp_split_prefix_str] in H.
+  - inversion H; subst. lia.
+  - destruct (inp_next l) as [[d r']|] eqn:E; [|discriminate]. destruct (d =? c); [|discriminate].
+    apply IH in H. apply inp_next_rest in E. lia.
+Qed.
+
+Lemma inp_count_matching_count58 f l : forall n rem, inp_count_matching f l = (n, rem) -> (count58 rem <= count58 l)%nat.
+Proof.
+  induction l as [|c r IH]; intros n rem H; cbn [inp_count_matching] in H.
+  - inversion H; subst. lia.
+  - assert (count58 r <= count58 (c :: r))%nat as Hr by (cbn [count58]; lia).
+    destruct (is_tnl c).
+    + destruct (inp_count_matching f r) as [n0 rem0] eqn:E. specialize (IH _ _ eq_refl).
+      destruct n0 as [|q]; inversion H; subst; lia.
+    + destruct (f c).
+      * destruct (inp_count_matching f r) as [n0 rem0] eqn:E. specialize (IH _ _ eq_refl). inversion H; subst. lia.
+      * inversion H; subst. lia.
+Qed.
+
+(* the scheme state consumes its ':' *)
+Lemma parse_scheme_loop_count58 l : forall acc s r,
+  parse_scheme_loop CUrlParser acc l = Some (s, r) -> (count58 r < count58 l)%nat.
+Proof.
+  induction l as [|c l IH]; intros acc s r H; cbn [parse_scheme_loop ctx_eqb] in H; [discriminate|].
+  assert (count58 l <= count58 (c :: l))%nat as Hr by (cbn [count58]; lia).
+  destruct (is_tnl c); [apply IH in H; lia|].
+  destruct (is_lower c || is_digit c || (c =? 43) || (c =? 45) || (c =? 46)); [apply IH in H; lia|].
+  destruct (is_upper c); [apply IH in H; lia|].
+  destruct (c =? 58) eqn:E; [|discriminate]. inversion H; subst. cbn [count58]. rewrite E. lia.
+Qed.
+
+Lemma parse_scheme_count58 l s r : parse_scheme CUrlParser l = Some (s, r) -> (count58 r < count58 l)%nat.
+Proof. unfold parse_scheme. destruct (inp_starts_with_pred is_alpha l); [apply parse_scheme_loop_count58|discriminate]. Qed.
+
+(* userinfo *)
+Lemma scan_last_at_count58 sp l : forall cnt last n r, scan_last_at sp l cnt last = Some (n, r) ->
+  last = Some (n, r) \/ (count58 r <= count58 l)%nat.
+Proof.
+  induction l as [|c l IH]; intros cnt last n r H; cbn [scan_last_at] in H; [left; exact H|].
+  assert (count58 l <= count58 (c :: l))%nat as Hr by (cbn [count58]; lia).
+  destruct (is_tnl c); [apply IH in H; destruct H; [left; assumption|right; lia]|].
+  destruct (c =? 64).
+  { apply IH in H. destruct H as [H|H]; [inversion H; subst; right; lia|right; lia]. }
+  destruct ((c =? 47) || (c =? 63) || (c =? 35) || (c =? 92) && sp); [left; exact H|].
+  apply IH in H. destruct H; [left; assumption|right; lia].
+Qed.
+
+Lemma userinfo_loop_app l : forall n ser uend hpw hun s' uend' hpw' hun',
+  userinfo_loop l n ser uend hpw hun = POk (s', uend', hpw', hun') -> exists X, s' = ser ++ X.
+Proof.
+  induction l as [|c l IH]; intros n ser uend hpw hun s' uend' hpw' hun' H; cbn [userinfo_loop] in H.
+  - destruct (n =? 0); [|discriminate]. inversion H; subst. exists []. now rewrite app_nil_r.
+  - destruct (n =? 0); [inversion H; subst; exists []; now rewrite app_nil_r|].
+    destruct (is_tnl c); [eapply IH; exact H|]. cbv zeta in H.
+    destruct ((c =? 58) && match uend with None => true | Some _ => false end).
+    + pbi H ue Hue. destruct (0 <? n - 1).
+      * apply IH in H. destruct H as [X ->]. exists ([58] ++ X). now rewrite app_assoc.
+      * eapply IH; exact H.
+    + destruct (push_encoded_shape T_USERINFO ser [c]) as (Y & HY & _). rewrite HY in H.
+      apply IH in H. destruct H as [X ->]. exists (Y ++ X). now rewrite app_assoc.
+Qed.
+
+Lemma parse_userinfo_shape st ser l ser1 ue rem :
+  parse_userinfo st ser l = POk (ser1, ue, rem) ->
+  (exists X, ser1 = ser ++ X) /\ (count58 rem <= count58 l)%nat.
+Proof.
+  unfold parse_userinfo. destruct (scan_last_at (st_is_special st) l 0 None) as [[n remaining]|] eqn:E.
+  - apply scan_last_at_count58 in E. destruct E as [E|E]; [discriminate|].
+    destruct n as [|q].
+    + destruct (inp_next remaining) as [[c r]|]; [|discriminate].
+      destruct ((c =? 47) || (c =? 63) || (c =? 35) || st_is_special st && (c =? 92)); [discriminate|].
+      intros H. pbi H ue0 Hue. inversion H; subst. split; [exists []; now rewrite app_nil_r|exact E].
+    + intros H. pbi H a Ha. destruct a as [[[s1 uend] hpw] hun]. pbi H ue0 Hue. inversion H; subst.
+      split; [|exact E]. apply userinfo_loop_app in Ha. destruct Ha as [X ->].
+      destruct (hun || hpw); [exists (X ++ [64]); now rewrite app_assoc|exists X; reflexivity].
+  - intros H. pbi H ue0 Hue. inversion H; subst. split; [exists []; now rewrite app_nil_r|lia].
+Qed.
+
+(* host and port *)
+Lemma host_scan_count58 sp l : forall inside acc h rem,
+  host_scan sp inside acc l = (h, rem) -> (count58 rem <= count58 l)%nat.
+Proof.
+  induction l as [|c l IH]; intros inside acc h rem H; cbn [host_scan] in H; [inversion H; subst; lia|].
+  assert (count58 l <= count58 (c :: l))%nat as Hr by (cbn [count58]; lia).
+  destruct (is_tnl c); [apply IH in H; lia|].
+  destruct ((c =? 58) && negb inside || (c =? 92) && sp || (c =? 47) || (c =? 63) || (c =? 35));
+    [inversion H; subst; lia|].
+  destruct (c =? 91); [apply IH in H; lia|]. destruct (c =? 93); apply IH in H; lia.
+Qed.
+
+Lemma file_host_scan_count58 l : forall acc h rem, file_host_scan acc l = (h, rem) -> (count58 rem <= count58 l)%nat.
+Proof.
+  induction l as [|c l IH]; intros acc h rem H; cbn [file_host_scan] in H; [inversion H; subst; lia|].
+  assert (count58 l <= count58 (c :: l))%nat as Hr by (cbn [count58]; lia).
+  destruct (is_tnl c); [apply IH in H; lia|]. destruct (is_path_end c); [inversion H; subst; lia|apply IH in H; lia].
+Qed.
+
+Lemma file_host_count58 l h rem : file_host l = (h, rem) -> (count58 rem <= count58 l)%nat.
+Proof.
+  unfold file_host. destruct (file_host_scan [] l) as [h0 rem0] eqn:E. apply file_host_scan_count58 in E.
+  destruct (is_wdl h0); intros H; inversion H; subst; lia.
+Qed.
+
+Section HostStates.
+Variable dbg : bool.
+Variable hp ho : list N -> result host.
+Variable hd : host -> list N.
+
+Lemma parse_host_count58 st l h rem : parse_host hp ho st l = POk (h, rem) -> (count58 rem <= count58 l)%nat.
+Proof.
+  unfold parse_host, get_file_host. destruct (st_is_file st).
+  - destruct (file_host l) as [t rem0] eqn:E. apply file_host_count58 in E.
+    intros H. pbi H x Hx. inversion H; subst. exact E.
+  - destruct (host_scan (st_is_special st) false [] l) as [t rem0] eqn:E. apply host_scan_count58 in E.
+    destruct (scheme_type_eqb st STSpecialNotFile && match t with [] => true | _ => false end); [discriminate|].
+    destruct (negb (st_is_special st)); intros H; pbi H x Hx; inversion H; subst; exact E.
+Qed.
+
+Lemma parse_port_loop_count58 ctx l : forall p any p' any' rem,
+  parse_port_loop ctx l p any = POk (p', any', rem) -> (count58 rem <= count58 l)%nat.
+Proof.
+  induction l as [|c l IH]; intros p any p' any' rem H; cbn [parse_port_loop] in H; [inversion H; subst; lia|].
+  assert (count58 l <= count58 (c :: l))%nat as Hr by (cbn [count58]; lia).
+  destruct (is_tnl c); [apply IH in H; lia|].
+  destruct (is_digit c).
+  - cbv zeta in H. destruct (65535 <? p * 10 + (c - 48)); [discriminate|]. apply IH in H. lia.
+  - destruct (ctx_eqb ctx CUrlParser && negb (is_path_end c)); [discriminate|]. inversion H; subst. lia.
+Qed.
+
+Lemma parse_port_count58 ctx d l port rem : parse_port ctx d l = POk (port, rem) -> (count58 rem <= count58 l)%nat.
+Proof.
+  unfold parse_port. intros H. pbi H a Ha. destruct a as [[p any] rem0]. apply parse_port_loop_count58 in Ha.
+  destruct (negb any && ctx_eqb ctx CSetter && negb (inp_is_empty rem0)); [discriminate|]. inversion H; subst. exact Ha.
+Qed.
+
+Lemma parse_host_and_port_shape ctx st se ser l ser2 he hi port rem :
+  parse_host_and_port hp ho hd ctx st se ser l = POk (ser2, he, hi, port, rem) ->
+  (exists X, ser2 = ser ++ X) /\ (count58 rem <= count58 l)%nat.
+Proof.
+  unfold parse_host_and_port. intros H. pbi H a Ha. destruct a as [h remaining]. apply parse_host_count58 in Ha.
+  cbv zeta in H. pbi H he0 Hhe. pbi H u0 Hu0.
+  destruct (inp_split_prefix_char 58 remaining) as [rem1|] eqn:E.
+  - apply inp_split_prefix_char_count58 in E. pbi H b Hb. destruct b as [port0 rem2]. apply parse_port_count58 in Hb.
+    inversion H; subst. split; [|lia].
+    destruct port; [eexists; rewrite <- app_assoc; reflexivity|eexists; reflexivity].
+  - inversion H; subst. split; [eexists; reflexivity|lia].
+Qed.
+
+(* ---------- path ---------- *)
+Lemma cinv_init st ser : CInv st (nlen ser) ser 0 ser.
+Proof.
+  split; [apply nfirstn_all; lia|]. intros _. rewrite nskipn_all by lia. cbn [count58]. lia.
+Qed.
+
+Lemma parse_path_cinv ctx st hh ps pre ser l s' hh' rem k : nlen pre = ps ->
+  parse_path dbg ctx st hh ps ser l = POk (s', hh', rem) -> CInv st ps pre k ser ->
+  exists k', CInv st ps pre k' s' /\ (k' + count58 rem <= k + count58 l)%nat.
+Proof.
+  intros Hpre H I. unfold parse_path in H.
+  destruct (cinv_loop dbg st ps pre Hpre ctx l _ _ _ _ _ _ _ _ H I (cinv_len st ps pre Hpre _ _ I)) as (k' & I' & Hk').
+  exists k'. split; [exact I'|]. cbn [count58] in Hk'. lia.
+Qed.
+
+Lemma parse_path_start_cinv ctx st hh ser l s' hh' rem :
+  parse_path_start dbg ctx st hh ser l = POk (s', hh', rem) ->
+  exists k', CInv st (nlen ser) ser k' s' /\ (k' + count58 rem <= count58 l)%nat.
+Proof.
+  unfold parse_path_start. cbv zeta. destruct (inp_split_first l) as [mc remaining] eqn:E.
+  apply inp_split_first_count58 in E.
+  pose proof (cinv_init st ser) as I0.
+  assert (CInv st (nlen ser) ser 0 (ser ++ [47])) as I1 by (apply cinv_app0; [reflexivity|exact I0|reflexivity]).
+  assert (forall s0 l0, CInv st (nlen ser) ser 0 s0 -> (count58 l0 <= count58 l)%nat ->
+            parse_path dbg ctx st hh (nlen ser) s0 l0 = POk (s', hh', rem) ->
+            exists k', CInv st (nlen ser) ser k' s' /\ (k' + count58 rem <= count58 l)%nat) as Hgo.
+  { intros s0 l0 Is0 Hl0 H. destruct (parse_path_cinv ctx st hh _ ser s0 l0 s' hh' rem 0%nat eq_refl H Is0) as (k' & I' & Hk').
+    exists k'. split; [exact I'|lia]. }
+  destruct (st_is_special st).
+  - destruct (negb (ends_with_byte 47 ser)).
+    + destruct mc as [c|]; [destruct (is_slash_or_bslash c)|]; apply Hgo; try assumption; lia.
+    + apply Hgo; [assumption|lia].
+  - destruct mc as [c|].
+    + destruct ((c =? 63) || (c =? 35)).
+      * intros H. inversion H; subst. exists 0%nat. split; [exact I0|lia].
+      * destruct (c =? 47); apply Hgo; try assumption; lia.
+    + apply Hgo; [assumption|lia].
+Qed.
+
+(* opaque paths *)
+Lemma parse_cbb_shape ctx l : forall ser ser1 rem,
+  parse_cannot_be_a_base_path ctx ser l = (ser1, rem) ->
+  exists X, ser1 = ser ++ X /\ (count58 X + count58 rem <= count58 l)%nat.
+Proof.
+  induction l as [|c l IH]; intros ser ser1 rem H; cbn [parse_cannot_be_a_base_path] in H.
+  - inversion H; subst. exists []. rewrite app_nil_r. split; [reflexivity|cbn [count58]; lia].
+  - assert (count58 l <= count58 (c :: l))%nat as Hr by (cbn [count58]; lia).
+    destruct (is_tnl c).
+    + apply IH in H. destruct H as (X & -> & HX). exists X. split; [reflexivity|lia].
+    + destruct (((c =? 63) || (c =? 35)) && ctx_eqb ctx CUrlParser).
+      * inversion H; subst. exists []. rewrite app_nil_r. split; [reflexivity|cbn [count58]; lia].
+      * destruct (push_encoded_shape T_CONTROLS ser [c]) as (Y & HY & HYc). rewrite HY in H.
+        apply IH in H. destruct H as (X & -> & HX). exists (Y ++ X). rewrite app_assoc. split; [reflexivity|].
+        rewrite count58_app. cbn [count58] in *. lia.
+Qed.
+
+(* ---------- query and fragment only append ---------- *)
+Lemma parse_fragment_loop_app l : forall ser pr, exists X, parse_fragment_loop ser pr l = ser ++ X.
+Proof.
+  induction l as [|c l IH]; intros ser pr; cbn [parse_fragment_loop].
+  - destruct pr; [exists []; now rewrite app_nil_r|eexists; reflexivity].
+  - destruct (is_tnl c); [|apply IH]. destruct (IH (flush_part T_FRAGMENT utf8_encode ser pr) []) as [X HX].
+    rewrite HX. unfold flush_part. rewrite <- app_assoc. eexists; reflexivity.
+Qed.
+
+Lemma parse_query_loop_app set enc iup l : forall ser pr, exists X, fst (parse_query_loop set enc iup ser pr l) = ser ++ X.
+Proof.
+  induction l as [|c l IH]; intros ser pr; cbn [parse_query_loop].
+  - cbn [fst]. destruct pr; [exists []; now rewrite app_nil_r|eexists; reflexivity].
+  - destruct (is_tnl c).
+    + destruct (IH (flush_part set enc ser pr) []) as [X HX]. rewrite HX. unfold flush_part. rewrite <- app_assoc. eexists; reflexivity.
+    + destruct ((c =? 35) && iup); [cbn [fst]; eexists; reflexivity|apply IH].
+Qed.
+
+Definition qf_at (n : N) (X : list N) (qs fs : option N) : Prop :=
+  match qs, fs with
+  | None, None => X = []
+  | Some i, _ | None, Some i => i = n
+  end.
+
+Lemma pqf_shape ovr ctx st se ser l s2 qs fs :
+  parse_query_and_fragment ovr ctx st se ser l = POk (s2, qs, fs) ->
+  exists X, s2 = ser ++ X /\ qf_at (nlen ser) X qs fs.
+Proof.
+  unfold parse_query_and_fragment. destruct (inp_next l) as [[c r]|].
+  2:{ intros H. inversion H; subst. exists []. rewrite app_nil_r. split; reflexivity. }
+  destruct (c =? 35).
+  { intros H. pbi H f0 Hf0. apply to_u32_val in Hf0. inversion H; subst. unfold parse_fragment.
+    destruct (parse_fragment_loop_app r (ser ++ [35]) []) as [X ->]. rewrite <- app_assoc. eexists. split; reflexivity. }
+  destruct (c =? 63); [|discriminate]. intros H. pbi H q0 Hq0. apply to_u32_val in Hq0.
+  unfold parse_query in H.
+  destruct (parse_query_loop_app (query_set st) (query_enc ovr (nfirstn se (ser ++ [63]))) (ctx_eqb ctx CUrlParser) r (ser ++ [63]) [])
+    as [X HX].
+  destruct (parse_query_loop _ _ _ _ _ r) as [ser1 rem2]. cbn [fst] in HX. subst ser1.
+  destruct rem2 as [r2|].
+  - pbi H f0 Hf0. inversion H; subst. unfold parse_fragment.
+    destruct (parse_fragment_loop_app r2 (((ser ++ [63]) ++ X) ++ [35]) []) as [Y ->].
+    rewrite <- !app_assoc. eexists. split; reflexivity.
+  - inversion H; subst. rewrite <- app_assoc. eexists. split; reflexivity.
+Qed.
+
+(* the path slice of a record whose serialization is  s1 ++ X  with the query / fragment (if any) at |s1| *)
+Lemma path_of_parts s1 X se ue hs he hi port ps1 qs fs p' :
+  ps1 <= nlen s1 -> qf_at (nlen s1) X qs fs ->
+  path (mkUrl (s1 ++ X) se ue hs he hi port ps1 qs fs) = Some p' -> p' = nskipn ps1 s1.
+Proof.
+  intros Hps Hqf. unfold path, u_slice_from, u_slice, slice_from_o, slice_o. cbn [query_start fragment_start ser path_start].
+  assert (Hcut : nfirstn (nlen s1 - ps1) (nskipn ps1 (s1 ++ X)) = nskipn ps1 s1).
+  { rewrite nskipn_app_le by exact Hps. rewrite <- (nlen_nskipn ps1 s1). apply nfirstn_app_exact. }
+  unfold qf_at in Hqf. destruct qs as [q|], fs as [f|]; subst.
+  - destruct ((ps1 <=? nlen s1) && (nlen s1 <=? nlen (s1 ++ X))); intros H; inversion H. exact Hcut.
+  - destruct ((ps1 <=? nlen s1) && (nlen s1 <=? nlen (s1 ++ X))); intros H; inversion H. exact Hcut.
+  - destruct ((ps1 <=? nlen s1) && (nlen s1 <=? nlen (s1 ++ X))); intros H; inversion H. exact Hcut.
+  - rewrite app_nil_r. destruct (ps1 <=? nlen s1); intros H; inversion H. reflexivity.
+Qed.
+
+Lemma scheme_of_parts s1 X se ue hs he hi port ps1 qs fs sch :
+  se <= nlen s1 -> scheme (mkUrl (s1 ++ X) se ue hs he hi port ps1 qs fs) = Some sch -> sch = nfirstn se s1.
+Proof.
+  intros Hse. unfold scheme, u_slice_to, slice_to_o. cbn [ser scheme_end].
+  destruct (se <=? nlen (s1 ++ X)); intros H; inversion H. apply nfirstn_app_le. exact Hse.
+Qed.
+
+(* what the record built at the end says about its scheme slice and its path slice *)
+Definition result_ok (se : N) (sch : list N) (bound : nat) (file : bool) (u : url) : Prop :=
+  (forall s, scheme u = Some s -> s = sch)
+  /\ (file = false -> forall p', path u = Some p' -> (count58 p' <= bound)%nat).
+
+Lemma wqf_shape ovr ctx st se ue hs he hi port ps ser rem u :
+  with_query_and_fragment ovr ctx st se ue hs he hi port ps ser rem = POk u -> ps <= nlen ser -> se <= nlen ser ->
+  (forall s, scheme u = Some s -> s = nfirstn se ser)
+  /\ (forall p', path u = Some p' -> p' = nskipn ps ser).
+Proof.
+  unfold with_query_and_fragment. intros H Hps Hse. pbi H a Ha. destruct a as [ser1 ps1].
+  pbi H b Hb. destruct b as [[ser2 qs] fs]. inversion H; subst. clear H.
+  apply pqf_shape in Hb. destruct Hb as (X & -> & Hqf).
+  assert (Lp : nlen (nfirstn ps ser) = ps) by (apply nlen_nfirstn; exact Hps).
+  assert (Ls : nlen (nfirstn se ser) = se) by (apply nlen_nfirstn; exact Hse).
+  assert (Hmain : ps1 <= nlen ser1 /\ se <= nlen ser1 /\ nfirstn se ser1 = nfirstn se ser /\ nskipn ps1 ser1 = nskipn ps ser).
+  { destruct (ps =? se + 1) eqn:E1.
+    - apply N.eqb_eq in E1.
+      destruct (starts_with s_ss (nskipn ps ser)).
+      + pbi Ha u0 Hu0. inversion Ha; subst ser1 ps1. change (47 :: 46 :: nskipn ps ser) with ([47; 46] ++ nskipn ps ser). rewrite !nlen_app, Lp. change (nlen [47; 46]) with 2. rewrite nlen_nskipn.
+        split; [lia|]. split; [lia|]. split.
+        * rewrite nfirstn_app_le by lia. apply nfirstn_nfirstn. lia.
+        * rewrite nskipn_app_ge by lia. rewrite Lp. replace (ps + 2 - ps) with (nlen [47; 46]) by (change (nlen [47; 46]) with 2; lia).
+          apply nskipn_app_exact.
+      + pbi Ha u0 Hu0. inversion Ha; subst ser1 ps1. auto.
+    - destruct ((ps =? se + 3) && list_eqb (nfirstn (ps - se) (nskipn se ser)) [58; 47; 46]) eqn:E2.
+      + apply andb_true_iff in E2. destruct E2 as [E2 _]. apply N.eqb_eq in E2.
+        pbi Ha u0 Hu0.
+        destruct (nnth ser (ps + 1)) as [b|].
+        * rewrite match47_if in Ha. destruct (b =? 47).
+          -- pbi Ha u1 Hu1. inversion Ha; subst ser1 ps1. auto.
+          -- pbi Ha u1 Hu1. inversion Ha; subst ser1 ps1. change (58 :: nskipn ps ser) with ([58] ++ nskipn ps ser). rewrite !nlen_app, Ls. change (nlen [58]) with 1. rewrite nlen_nskipn.
+             split; [lia|]. split; [lia|]. split.
+             ++ rewrite nfirstn_app_le by lia. apply nfirstn_nfirstn. lia.
+             ++ rewrite app_assoc. replace (ps - 2) with (nlen (nfirstn se ser ++ [58])) by (rewrite nlen_app, Ls; change (nlen [58]) with 1; lia).
+                apply nskipn_app_exact.
+        * pbi Ha u1 Hu1. inversion Ha; subst ser1 ps1. change (58 :: nskipn ps ser) with ([58] ++ nskipn ps ser). rewrite !nlen_app, Ls. change (nlen [58]) with 1. rewrite nlen_nskipn.
+          split; [lia|]. split; [lia|]. split.
+          -- rewrite nfirstn_app_le by lia. apply nfirstn_nfirstn. lia.
+          -- rewrite app_assoc. replace (ps - 2) with (nlen (nfirstn se ser ++ [58])) by (rewrite nlen_app, Ls; change (nlen [58]) with 1; lia).
+             apply nskipn_app_exact.
+      + inversion Ha; subst ser1 ps1. auto. }
+  destruct Hmain as (H1 & H2 & H3 & H4). split.
+  - intros s Hs. apply scheme_of_parts in Hs; [|exact H2]. congruence.
+  - intros p' Hp. apply path_of_parts in Hp; [|exact H1|exact Hqf]. congruence.
+Qed.
+
+End HostStates.
